@@ -742,11 +742,23 @@ Crash(obs) ==
 \* a hypothetical crash (on a copy of the storage): the run itself continues unchanged.
 \* p.obs is what the reopened copy shows; p.integ the result of check_integrity() on it and p.same
 \* whether the contents were unchanged by that check (C11: a recovered database is healthy)
+\* KNOWN FINDING C19/v3-integrity-false-on-short-file: redb 3.0.0 never makes a file shorter than 258
+\* pages (1 MiB of data pages, the header page and a tracker page); this code trims and grows files
+\* below that, and on such a file 3.0.0's check_integrity() may answer Ok(FALSE) ("repaired") although
+\* it shows exactly the contents this code shows.  Named as its own disjunct, reported through
+\* Known(), accepted only while known_findings.txt lists it.
+MinFileOf3 == 258 * 4096
 CrashProbe(p) ==
   /\ CrashAtomic(p.obs)
-  /\ "integ" \in DOMAIN p => (p.integ = Ok(TRUE) /\ p.same)
+  /\ "integ" \in DOMAIN p =>
+        IF p.integ = Ok(TRUE) THEN p.same
+        ELSE IF "reader" \in DOMAIN p /\ p.reader = "3.0.0" /\ p.integ = Ok(FALSE) /\ p.ilen < MinFileOf3
+             THEN Known("C19/v3-integrity-false-on-short-file", p)
+             ELSE FALSE
   \* C11: writing after a reopen never damages existing data (a transaction that adds one table)
   /\ "write_ok" \in DOMAIN p => p.write_ok
+  \* C19: the image was opened by another release than the one that wrote it; both show the same
+  /\ "peer_same" \in DOMAIN p => p.peer_same
   /\ UNCHANGED kvVars
 
 \* C12: a closed image of this history was altered (any bytes), opened, and check_integrity() was
